@@ -122,6 +122,10 @@ func init() {
 (assert (forall ((a Str) (l Int) (h Int)) (! (=> (<= l h) (= (str_len (str_sub a l h)) (- h l))) :pattern ((str_sub a l h)))))
 (assert (forall ((a Str) (l Int) (h Int) (k Int)) (! (=> (and (<= 0 k) (< k (- h l))) (= (str_at (str_sub a l h) k) (str_at a (+ l k)))) :pattern ((str_at (str_sub a l h) k)))))
 `},
+		{syms: []string{"str_itoa", "str_atoi"}, text: `(declare-fun str_itoa (Int) Str)
+(declare-fun str_atoi (Str) Int)
+(assert (forall ((n Int)) (! (= (str_atoi (str_itoa n)) n) :pattern ((str_itoa n)))))
+`},
 		{syms: []string{"str_chr"}, text: `(declare-fun str_chr (Int) Str)
 (assert (forall ((c Int)) (! (=> (and (<= 0 c) (< c 128)) (and (= (str_len (str_chr c)) 1) (= (str_at (str_chr c) 0) c))) :pattern ((str_chr c)))))
 `},
